@@ -55,6 +55,8 @@ def classify(text, nxt):
         return "end"
     if t.startswith("if self._external_queue"):
         return "recheck"
+    if "_external_queue.clear()" in t or t.startswith("self._external_queue ="):
+        return "fail"                 # a callback failed: what is waiting is dropped
     return None
 
 
@@ -78,8 +80,12 @@ def make_machine(log, lock_probe):
 class Scheduler:
     """lets exactly one sender thread run one traced source line at a time"""
 
-    def __init__(self, n):
+    def __init__(self, n, fine=False):
         self.n = n
+        # fine: inside BaseEngine.put the threads are parked before every bytecode instruction (the queue
+        # object is loaded and appended to by different instructions of one source line)
+        self.fine = fine
+        self.op = [None] * n             # None: parked at a line; else the name of the instruction about to run
         self.go = [threading.Semaphore(0) for _ in range(n)]
         self.parked = threading.Semaphore(0)
         self.where = [None] * n          # text of the line each parked thread is about to execute
@@ -88,17 +94,53 @@ class Scheduler:
 
     def tracer(self, i):
         def local(frame, event, arg):
-            if event == "line":
+            if event == "line" or event == "opcode":
                 self.where[i] = linecache.getline(frame.f_code.co_filename, frame.f_lineno)
+                if frame.f_trace_opcodes:
+                    self.op[i] = _opname(frame) if event == "opcode" else ""
+                else:
+                    self.op[i] = None
                 self.parked.release()
                 self.go[i].acquire()
             return local
 
         def glob(frame, event, arg):
             if event == "call" and traced(frame.f_code.co_filename):
+                if self.fine and frame.f_code.co_name == "put":
+                    frame.f_trace_opcodes = True
                 return local
             return None
         return glob
+
+
+def _opname(frame):
+    import dis
+    return dis.opname[frame.f_code.co_code[frame.f_lasti]]
+
+
+def _warm_opcode_events():
+    """CPython instruments a code object for per-instruction events when f_trace_opcodes is first set on one of
+    its frames, and the frame that is already running then misses them: run BaseEngine.put once beforehand"""
+    import collections
+    from statemachine.engines.base import BaseEngine
+    dummy = type("Q", (), {})()
+    dummy._external_queue = collections.deque()
+
+    def local(frame, event, arg):
+        return local
+
+    def glob(frame, event, arg):
+        if event == "call" and frame.f_code is BaseEngine.put.__code__:
+            frame.f_trace_opcodes = True
+            return local
+        return None
+    old = sys.gettrace()
+    sys.settrace(glob)
+    try:
+        BaseEngine.put(dummy, None)
+        BaseEngine.put(dummy, None)
+    finally:
+        sys.settrace(old)
 
 
 def make_plain_machine(log):
@@ -146,7 +188,9 @@ def run_threads(sc):
     same = sc["kind"] == "threads_same"
     failing = sc["kind"] == "threads_fail"
     sm = make_plain_machine(log) if same else (make_failing_machine(log) if failing else make_machine(log, None))
-    S = Scheduler(n)
+    S = Scheduler(n, fine=bool(sc.get("fine")))
+    if S.fine:
+        _warm_opcode_events()
     popped_by = {}
     helper = None
     if sc.get("busy_other"):
@@ -208,11 +252,15 @@ def run_threads(sc):
             pos += 1
         if S.done[i]:
             continue
-        text = S.where[i]
+        text, op = S.where[i], S.op[i]
         S.go[i].release()
         S.parked.acquire()               # it ran one line and parked again (or finished)
         nxt = S.where[i]
-        act = classify(text, nxt)
+        if op is None:
+            act = classify(text, nxt)
+        else:
+            # instruction by instruction: the trigger is in the queue once the call of `append` has run
+            act = "put" if (op.startswith("CALL") and "_external_queue.append(" in text) else None
         if act == "acq":
             steps.append(i)
         elif act == "put":
@@ -227,6 +275,8 @@ def run_threads(sc):
         elif act == "rel":
             steps.append(i)
         elif act == "recheck":
+            steps.append(i)
+        elif act == "fail":
             steps.append(i)
     for t in threads:
         t.join(2)
@@ -252,6 +302,7 @@ def run_threads(sc):
     leftover = [(td.kwargs["sender"], td.kwargs["seq"]) for td in sm._engine._external_queue]
     if failing:
         return {"failing": True, "begins": [list(x) for x in begins], "leftover": [list(x) for x in leftover],
+                "popped": [[list(b_), p_] for b_, p_ in zip(begins, pops)], "npops": len(pops),
                 "returned": [bool(d) for d in S.done], "overlap": overlap, "steps": steps, "hung": guard >= 20000}
     popped = [[list(b), p] for b, p in zip(begins, pops)]
     return {"steps": steps, "popped": popped, "leftover": [list(x) for x in leftover],
@@ -530,8 +581,17 @@ def coq_case(sc, obs):
         # whatever is put afterwards is processed; once every sender has returned nothing is left in the queue,
         # nothing was begun twice and no two events overlapped
         ok = (not obs["overlap"] and not obs["hung"] and all(obs["returned"]) and not obs["leftover"]
-              and len({tuple(x) for x in obs["begins"]}) == len(obs["begins"]))
-        return "(mk6 true [] [] [] [] [])" if ok else "(mk6 true [] [] [((9, 9), 9)] [] [])"
+              and len({tuple(x) for x in obs["begins"]}) == len(obs["begins"]) and obs.get("npops") == len(obs["begins"]))
+        if not ok:
+            return "(mk6 true [] [] [((9, 9), 9)] [] [])"
+        # and the protocol steps reconstructed from the lines (instructions) actually executed, replayed in the
+        # model with failing callbacks (Impl/ConcFail.v), give the same events begun by the same threads
+        plan = "[" + "; ".join(map(str, sc["plan"])) + "]"
+        sched = "[" + "; ".join(map(str, obs["steps"])) + "]"
+        popped = "[" + "; ".join(f"(({e[0]}, {e[1]}), {p})" for e, p in obs["popped"]) + "]"
+        left = "[" + "; ".join(f"({e[0]}, {e[1]})" for e in obs["leftover"]) + "]"
+        ret = "[" + "; ".join(b(x) for x in obs["returned"]) + "]"
+        return f"(mk6f {plan} {sched} {popped} {left} {ret})"
     if sc["kind"] == "threads_same":
         # identical events cannot be told apart: exactly-once is checked by counting
         ok = (not obs["overlap"] and not obs["hung"] and all(obs["returned"]) and obs["leftover"] == 0
@@ -592,9 +652,18 @@ def generate(rng, tier):
         for _ in range(rng.randint(1, 6)):
             sched += [rng.randrange(n)] * rng.randint(1, 60)
         fl.append({"kind": "threads_fail", "plan": [rng.randint(1, 2) for _ in range(n)], "schedule": sched})
+    # the same with the threads preempted between the bytecode instructions of BaseEngine.put (the queue object
+    # is loaded by one instruction and appended to by a later one: a sender may be parked in between while the
+    # failure of another sender's callback is handled)
+    nfine = 0
+    for k0 in (range(14, 34, 2) if tier == "quick" else range(0, 44)):
+        for k1 in (range(20, 38) if tier == "quick" else range(8, 56)):
+            fl.append({"kind": "threads_fail", "fine": True, "plan": [1, 1], "schedule": [0] * k0 + [1] * k1 + [0] * 300})
+            nfine += 1
     scs += fl
     parts.append(("threads, the callbacks of sender 0's first event fail: every preemption point of sender 0 x several "
-                  "lengths of sender 1, plus random schedules for 2-4 senders", len(fl)))
+                  "lengths of sender 1, plus random schedules for 2-4 senders; %d of them with preemption points "
+                  "between the bytecode instructions of BaseEngine.put" % nfine, len(fl)))
     nt = 120 if tier == "quick" else 3000
     t = []
     for _ in range(nt):
